@@ -335,10 +335,12 @@ class StmtMixin:
     def ex_FunctionDef(self, s):
         self.frame.env[s.name] = SV('func', FuncVal(node=s, closure=self.frame.env, owner=self.frame.cls,
                                                     module=self.frame.module, name=s.name))
-        if s.decorator_list:
-            decs = [ast.unparse(d) for d in s.decorator_list]
-            if any(not d.startswith('functools.wraps') and d != 'wraps' for d in decs) and not all('wraps' in d for d in decs):
-                raise Unsupported(f'decorated nested function {decs}')
+        for d in reversed(s.decorator_list):
+            txt = ast.unparse(d)
+            if 'wraps' in txt:
+                continue            # functools.wraps(f) copies metadata only
+            dec = self.ev(d)
+            self.frame.env[s.name] = self.call_value(dec, [self.frame.env[s.name]], {}, s)
 
     def ex_Import(self, s):
         pass
@@ -454,7 +456,24 @@ class StmtMixin:
         self.with_context(cm, it, s)
 
     def with_context(self, cm, it, s):
-        raise Unsupported('with statement on this context manager')
+        """`with obj:` on an instance of a source class with __enter__ / __exit__ (python's protocol)"""
+        if cm.k != 'obj' or self.src.find_method(self.st.heap[cm.t].cls, '__enter__')[0] is None \
+                or self.src.find_method(self.st.heap[cm.t].cls, '__exit__')[0] is None:
+            raise Unsupported('with statement on this context manager')
+        v = self.call_method(cm, '__enter__', [], {}, s)
+        if it.optional_vars is not None:
+            self.assign(it.optional_vars, v)
+        try:
+            self.exec_block(s.body)
+        except PyRaise as e:
+            r = self.call_method(cm, '__exit__', [SV('const', ('exception-class', e.exc)), SV('const', ('exception', e.exc)), NONE], {}, s)
+            if self.branch(self.truth(r)):
+                return              # the context manager swallowed the exception
+            raise
+        except (ReturnSig, BreakSig, ContinueSig):
+            self.call_method(cm, '__exit__', [NONE, NONE, NONE], {}, s)
+            raise
+        self.call_method(cm, '__exit__', [NONE, NONE, NONE], {}, s)
 
     def open_file(self, args, node):
         raise Unsupported('open()')
